@@ -239,11 +239,10 @@ type EResult struct {
 }
 
 type clientConn struct {
-	judged bool
-	id     int
-	c      net.Conn
-	rd     *bufio.Reader
-	back   int
+	id   int
+	c    net.Conn
+	rd   *bufio.Reader
+	back int
 }
 
 // isClosed waits up to d for the connection to be closed by the other side.
@@ -353,8 +352,7 @@ func (r *e2eRun) anyHeld() bool {
 func (r *e2eRun) sweep(leaving map[int]bool, o *EObs) {
 	mustSet := map[int]bool{}
 	for id, cc := range r.clients {
-		if leaving[cc.back] && !cc.judged {
-			cc.judged = true // a relay is judged at the (first) removal of its host only
+		if leaving[cc.back] {
 			mustSet[id] = true
 			o.Must = append(o.Must, id)
 		}
